@@ -175,9 +175,4 @@ Definition run_joe (i : val) : val :=
       end
   end.
 
-(* ---- property monitors (filled in below) ---------------------------------- *)
-Definition holds_joe_c06 (i o : val) : bool := true.
-Definition holds_joe_c07 (i o : val) : bool := true.
-Definition holds_joe_c03 (i o : val) : bool := true.
-Definition holds_joe_c17 (i o : val) : bool := true.
-Definition holds_joe_c04 (i o : val) : bool := true.
+(* the property monitors are in RunJoeMon.v *)
